@@ -1069,8 +1069,389 @@ static void fam_ww(void)
 		}
 	}
 }
-static void fam_pp(void) {}
-static void fam_word(void) {}
+
+/* ------------------------------------------------------------------ pp: polynomials over GF(2) */
+#define PL(op_) LB("pp", op_, "def")
+static void pp_mul_line(const num* a, const num* b)
+{
+	size_t n = a->n, m = b->n;
+	set_fill(C, n + m, 0x5A);
+	PL("ppMul"); jInt("n", n); jInt("m", m); LW("a", a->v, n); LW("b", b->v, m);
+	CALL(ppMul(C, a->v, n, b->v, m, STACK));
+	LW("c", C, n + m); MKCLS("a=%s,b=%s", a->nm, b->nm); LE_(CLS, "none");
+}
+static void pp_div_lines(const num* a, const num* b, const char* cls)
+{
+	size_t n = a->n, m = b->n;
+	if (n >= m)
+	{
+		set_fill(C, n - m + 1, 0x5A); set_fill(D, n, 0x5A);
+		PL("ppDiv"); jInt("n", n); jInt("m", m); LW("a", a->v, n); LW("b", b->v, m);
+		CALL(ppDiv(C, D, a->v, n, b->v, m, STACK));
+		LW("q", C, n - m + 1); LW("r", D, m); LE_(cls, "none");
+		wwCopy(A, a->v, n); set_fill(C, n - m + 1, 0x5A);
+		PL("ppDiv"); jInt("n", n); jInt("m", m); LW("a", A, n); LW("b", b->v, m);
+		CALL(ppDiv(C, A, A, n, b->v, m, STACK));
+		LW("q", C, n - m + 1); LW("r", A, m); LE_(cls, "r=a");
+	}
+	set_fill(D, m > n ? m : n, 0x5A);
+	PL("ppMod"); jInt("n", n); jInt("m", m); LW("a", a->v, n); LW("b", b->v, m);
+	CALL(ppMod(D, a->v, n, b->v, m, STACK));
+	LW("r", D, m); LE_(cls, "none");
+}
+/* moduli of GF(2)[x] of n words: top word non-zero */
+enum { PM_X, PM_TOPBIT1, PM_MAX, PM_RANDHI, PM_RANDLO, PM_TOPONE1, PM_IRRED, NPM };
+static const char* PMN[NPM] = { "x^k", "x^k+1", "all-ones", "rand-hi-odd", "rand-lo-odd", "X^(n-1)+1", "irreducible" };
+/* irreducible polynomials x^m + x^k3 + x^k2 + x^k1 + 1 (or trinomials, k2 = k1 = 0) of degree m */
+static const unsigned IRR[][4] = { {7,1,0,0},{15,1,0,0},{17,3,0,0},{31,3,0,0},{33,10,0,0},{63,1,0,0},{64,4,3,1},{65,18,0,0},{127,1,0,0},{128,7,2,1},
+	{129,5,0,0},{163,7,6,3},{191,9,0,0},{193,15,0,0},{233,74,0,0},{255,52,0,0},{257,12,0,0},{283,12,7,5},{409,87,0,0},{571,10,5,2} };
+static int mkpmod(num* o, size_t n, int c)
+{
+	size_t i;
+	memset(o->v, 0, sizeof(o->v)); o->n = n; strcpy(o->nm, PMN[c]);
+	if (n == 0) return 0;
+	switch (c)
+	{
+	case PM_X: o->v[n - 1] = BHALF; return 1;
+	case PM_TOPBIT1: o->v[n - 1] = BHALF; o->v[0] |= 1; return 1;
+	case PM_MAX: set_fill(o->v, n, BMAX); return 1;
+	case PM_RANDHI: vxRandBuf(o->v, n * O_PER_W); o->v[n - 1] |= BHALF; o->v[0] |= 1; return 1;
+	case PM_RANDLO: vxRandBuf(o->v, n * O_PER_W); o->v[n - 1] &= 0xFF; o->v[n - 1] |= 2; o->v[0] |= 1; return 1;
+	case PM_TOPONE1: if (n < 2) return 0; o->v[n - 1] = 1; o->v[0] = 1; return 1;
+	case PM_IRRED:
+		for (i = 0; i < COUNT_OF(IRR); ++i)
+			if (IRR[i][0] / B_PER_W + 1 == n)
+			{
+				wwSetBit(o->v, IRR[i][0], 1); wwSetBit(o->v, IRR[i][1], 1); o->v[0] |= 1;
+				if (IRR[i][2]) wwSetBit(o->v, IRR[i][2], 1), wwSetBit(o->v, IRR[i][3], 1);
+				snprintf(o->nm, sizeof(o->nm), "irreducible-deg%u", IRR[i][0]);
+				return 1;
+			}
+		return 0;
+	}
+	return 0;
+}
+/* element of degree < deg(mod) */
+enum { PR_ZERO, PR_ONE, PR_X, PR_MAXDEG, PR_ALL, PR_RAND, PR_RAND2, NPR };
+static const char* PRN[NPR] = { "0", "1", "x", "x^(d-1)", "all-below-d", "rand", "rand2" };
+static void mkpres(num* o, const num* mod, int r)
+{
+	size_t n = mod->n, d = ppDeg(mod->v, n);
+	memset(o->v, 0, sizeof(o->v)); o->n = n; strcpy(o->nm, PRN[r]);
+	switch (r)
+	{
+	case PR_ZERO: break;
+	case PR_ONE: o->v[0] = 1; break;
+	case PR_X: o->v[0] = 2; break;
+	case PR_MAXDEG: if (d) wwSetBit(o->v, d - 1, 1); break;
+	case PR_ALL: set_fill(o->v, n, BMAX); break;
+	default: vxRandBuf(o->v, n * O_PER_W); break;
+	}
+	wwTrimHi(o->v, n, d);
+}
+static void fam_pp(void)
+{
+	/* unrolled kernels 1..9 words, Karatsuba from 10 (even / odd splits), unequal lengths */
+	static const size_t NMQ[][2] = { {0,0},{0,2},{1,0},{1,1},{1,2},{2,1},{2,2},{3,3},{4,4},{5,5},{6,6},{7,7},{8,8},{9,9},{9,10},{10,10},{11,10},{11,11},{19,19},{20,20},{21,21},{21,20},{3,8},{1,12} };
+	static const size_t NMT[][2] = { {0,0},{0,2},{1,0},{1,1},{1,2},{2,1},{2,2},{3,3},{4,4},{5,5},{6,6},{7,7},{8,8},{9,9},{9,10},{10,9},{10,10},{11,10},{10,11},{11,11},
+		{12,12},{13,13},{14,14},{15,15},{16,16},{17,17},{18,18},{19,19},{20,20},{21,21},{21,20},{20,21},{3,8},{1,12},{12,1},{10,21},{22,22},{23,23},{24,24},{32,32},{40,40} };
+	static const int MS[] = { S_ZERO, S_ONE, S_MAX, S_HIBIT, S_ALT, S_RAND, S_RANDLO };
+	size_t t, i, j, cnt = THOROUGH ? COUNT_OF(NMT) : COUNT_OF(NMQ); int k, pc; num a, b, mod;
+	for (t = 0; t < cnt; ++t)
+	{
+		size_t n = THOROUGH ? NMT[t][0] : NMQ[t][0], m = THOROUGH ? NMT[t][1] : NMQ[t][1];
+		size_t Pn = n <= 1 ? nshapes(n) : COUNT_OF(MS), Pm = m <= 1 ? nshapes(m) : COUNT_OF(MS);
+		for (i = 0; i < Pn; ++i) for (j = 0; j < Pm; ++j)
+		{
+			if (!THOROUGH && n >= 9 && !(i == j || i + 1 == Pn || j + 1 == Pm || (i == 2 && j == 2))) continue;
+			mkshape(&a, n, n <= 1 ? (int)i : MS[i]); mkshape(&b, m, m <= 1 ? (int)j : MS[j]);
+			pp_mul_line(&a, &b);
+		}
+	}
+	/* degree, squares, products with a word */
+	for (t = 0; t < nlens(); ++t)
+	{
+		size_t n = lens(t), P = nshapes(n);
+		for (i = 0; i < P; ++i)
+		{
+			size_t d;
+			mkshape(&a, n, (int)i); MKCLS("a=%s", a.nm);
+			PL("ppDeg"); jInt("n", n); LW("a", a.v, n); CALL(d = ppDeg(a.v, n)); jInt("ret", d == SIZE_MAX ? -1 : (long long)d); LE_(CLS, "none");
+			set_fill(C, 2 * n, 0x5A);
+			PL("ppSqr"); jInt("n", n); LW("a", a.v, n); CALL(ppSqr(C, a.v, n, STACK)); LW("c", C, 2 * n); LE_(CLS, "none");
+			for (k = 0; k < 9; ++k)
+			{
+				word w = alpha(k), r; char c2[96];
+				snprintf(c2, sizeof(c2), "a=%s,w=%s", a.nm, AN[k]);
+				wwCopy(A, a.v, n); set_fill(C, n, 0x5A);
+				PL("ppMulW"); jInt("n", n); LW("a", A, n); LWord("w", w); CALL(r = ppMulW(C, A, n, w, STACK)); LW("c", C, n); LWord("ret", r); LE_(c2, "none");
+				if (k % 2) { PL("ppMulW"); jInt("n", n); LW("a", A, n); LWord("w", w); CALL(r = ppMulW(A, A, n, w, STACK)); LW("c", A, n); LWord("ret", r); LE_(c2, "b=a"); }
+				wwCopy(A, a.v, n); mkshape(&b, n, (int)((i + k) % P)); wwCopy(B_, b.v, n);
+				snprintf(c2, sizeof(c2), "a=%s,b=%s,w=%s", a.nm, b.nm, AN[k]);
+				PL("ppAddMulW"); jInt("n", n); LW("a", A, n); LW("b", B_, n); LWord("w", w); CALL(r = ppAddMulW(B_, A, n, w, STACK)); LW("c", B_, n); LWord("ret", r); LE_(c2, "none");
+			}
+		}
+	}
+	/* division / remainder / gcd */
+	{
+		static const size_t DQ[][2] = { {1,1},{2,1},{3,1},{2,2},{3,2},{4,2},{3,3},{6,3},{5,4},{1,2},{0,1} };
+		static const size_t DT[][2] = { {1,1},{2,1},{3,1},{2,2},{3,2},{4,2},{3,3},{6,3},{5,4},{1,2},{0,1},{8,4},{12,6},{21,11},{21,21},{42,21},{20,10},{2,5} };
+		size_t dcnt = THOROUGH ? COUNT_OF(DT) : COUNT_OF(DQ);
+		for (t = 0; t < dcnt; ++t)
+		{
+			size_t n = THOROUGH ? DT[t][0] : DQ[t][0], m = THOROUGH ? DT[t][1] : DQ[t][1];
+			for (pc = 0; pc < NPM; ++pc)
+			{
+				if (!mkpmod(&b, m, pc)) continue;
+				for (i = 0; i < (n <= 1 ? nshapes(n) : COUNT_OF(MS)); ++i)
+				{
+					char c2[128];
+					mkshape(&a, n, n <= 1 ? (int)i : MS[i]);
+					snprintf(c2, sizeof(c2), "a=%s,b=%s", a.nm, b.nm);
+					pp_div_lines(&a, &b, c2);
+					if (n == 0 || wwIsZero(a.v, n)) continue;          /* gcd: a != 0 && b != 0 */
+					{
+						size_t mn = n < m ? n : m;
+						set_fill(C, mn, 0x5A);
+						PL("ppGCD"); jInt("n", n); jInt("m", m); LW("a", a.v, n); LW("b", b.v, m); CALL(ppGCD(C, a.v, n, b.v, m, STACK)); LW("c", C, mn); LE_(c2, "none");
+						set_fill(C, mn, 0x5A); set_fill(D, m, 0x5A); set_fill(E, n, 0x5A);
+						PL("ppExGCD"); jInt("n", n); jInt("m", m); LW("a", a.v, n); LW("b", b.v, m);
+						CALL(ppExGCD(C, D, E, a.v, n, b.v, m, STACK)); LW("d", C, mn); LW("da", D, m); LW("db", E, n); LE_(c2, "none");
+					}
+				}
+				/* exact multiples a = q * b and a = q * b + (b - 1 shape) */
+				if (n >= m)
+				{
+					size_t nq = n - m;
+					for (i = 0; i < (nq <= 1 ? nshapes(nq) : COUNT_OF(MS)); ++i)
+					{
+						num q; char c2[128]; word prod[2 * NW];
+						mkshape(&q, nq, nq <= 1 ? (int)i : MS[i]);
+						memset(prod, 0, sizeof(prod));
+						ppMul(prod, q.v, nq, b.v, m, STACK);
+						wwCopy(a.v, prod, n); a.n = n;
+						snprintf(c2, sizeof(c2), "a=q*b,q=%s,b=%s", q.nm, b.nm);
+						pp_div_lines(&a, &b, c2);
+						if (!wwIsZero(a.v, n))
+						{
+							set_fill(C, m, 0x5A);
+							PL("ppGCD"); jInt("n", n); jInt("m", m); LW("a", a.v, n); LW("b", b.v, m); CALL(ppGCD(C, a.v, n, b.v, m, STACK)); LW("c", C, m); LE_(c2, "none");
+							set_fill(C, m, 0x5A); set_fill(D, m, 0x5A); set_fill(E, n, 0x5A);
+							PL("ppExGCD"); jInt("n", n); jInt("m", m); LW("a", a.v, n); LW("b", b.v, m);
+							CALL(ppExGCD(C, D, E, a.v, n, b.v, m, STACK)); LW("d", C, m); LW("da", D, m); LW("db", E, n); LE_(c2, "none");
+						}
+					}
+				}
+			}
+		}
+	}
+	/* modular arithmetic and reductions */
+	{
+		static const size_t LQ[] = { 1, 2, 3, 4 }, LT[] = { 1, 2, 3, 4, 5, 6, 9, 10, 11, 21 };
+		size_t lcnt = THOROUGH ? COUNT_OF(LT) : COUNT_OF(LQ);
+		for (t = 0; t < lcnt; ++t)
+		{
+			size_t n = THOROUGH ? LT[t] : LQ[t];
+			for (pc = 0; pc < NPM; ++pc)
+			{
+				if (!mkpmod(&mod, n, pc)) continue;
+				if (ppDeg(mod.v, n) < 1) continue;
+				/* reduction of [2n]a */
+				for (i = 0; i < COUNT_OF(MS); ++i)
+				{
+					mkshape(&a, 2 * n, MS[i]);
+					wwCopy(A, a.v, 2 * n);
+					PL("ppRed"); jInt("n", n); LW("a", A, 2 * n); LW("mod", mod.v, n); CALL(ppRed(A, mod.v, n, STACK)); LW("c", A, n);
+					MKCLS("mod=%s,a=%s", mod.nm, a.nm); LE_(CLS, "none");
+				}
+				for (i = 0; i < NPR; ++i)
+				{
+					mkpres(&a, &mod, (int)i);
+					wwCopy(A, a.v, n); set_fill(C, n, 0x5A);
+					PL("ppSqrMod"); jInt("n", n); LW("a", A, n); LW("mod", mod.v, n); CALL(ppSqrMod(C, A, mod.v, n, STACK)); LW("c", C, n);
+					MKCLS("mod=%s,a=%s", mod.nm, a.nm); LE_(CLS, "none");
+					if (mod.v[0] & 1)
+					{
+						set_fill(C, n, 0x5A);
+						PL("ppInvMod"); jInt("n", n); LW("a", A, n); LW("mod", mod.v, n); g_sig = a.nm; CALL(ppInvMod(C, A, mod.v, n, STACK)); g_sig = ""; LW("c", C, n);
+						MKCLS("mod=%s,a=%s", mod.nm, a.nm); LE_(CLS, "none");
+					}
+					for (j = 0; j < NPR; ++j)
+					{
+						if (!THOROUGH && !(i == j || j == (i + 1) % NPR || j <= PR_ONE || i <= PR_ONE)) continue;
+						mkpres(&b, &mod, (int)j);
+						wwCopy(B_, b.v, n); set_fill(C, n, 0x5A);
+						PL("ppMulMod"); jInt("n", n); LW("a", A, n); LW("b", B_, n); LW("mod", mod.v, n); CALL(ppMulMod(C, A, B_, mod.v, n, STACK)); LW("c", C, n);
+						MKCLS("mod=%s,a=%s,b=%s", mod.nm, a.nm, b.nm); LE_(CLS, "none");
+						if (mod.v[0] & 1)
+						{
+							set_fill(C, n, 0x5A);
+							PL("ppDivMod"); jInt("n", n); LW("dv", A, n); LW("a", B_, n); LW("mod", mod.v, n); g_sig = b.nm; CALL(ppDivMod(C, A, B_, mod.v, n, STACK)); g_sig = ""; LW("c", C, n);
+							MKCLS("mod=%s,dv=%s,a=%s", mod.nm, a.nm, b.nm); LE_(CLS, "none");
+						}
+					}
+				}
+			}
+		}
+	}
+	/* special reductions: trinomials / pentanomials of the table that satisfy the preconditions, the belt polynomial */
+	for (t = 0; t < COUNT_OF(IRR); ++t)
+	{
+		size_t m = IRR[t][0], k3 = IRR[t][1], n = W_OF_B(m);
+		for (i = 0; i < COUNT_OF(MS); ++i)
+		{
+			mkshape(&a, 2 * n, MS[i]);
+			/* the input of a field reduction is a product of two elements: degree <= 2(m-1) */
+			wwTrimHi(a.v, 2 * n, 2 * m - 1);
+			if (IRR[t][2] == 0 && m % 8 != 0 && k3 > 0 && m - k3 >= B_PER_W)
+			{
+				pp_trinom_st p; p.m = m; p.k = k3;
+				wwCopy(A, a.v, 2 * n);
+				PL("ppRedTrinomial"); jInt("n", n); LW("a", A, 2 * n); jInt("m", m); jInt("k", k3); CALL(ppRedTrinomial(A, &p)); LW("c", A, n);
+				MKCLS("m=%u,k=%u,a=%s", (unsigned)m, (unsigned)k3, a.nm); LE_(CLS, "none");
+			}
+			if (IRR[t][2] != 0 && m - k3 >= B_PER_W && k3 < B_PER_W)
+			{
+				pp_pentanom_st p; p.m = m; p.k = k3; p.l = IRR[t][2]; p.l1 = IRR[t][3];
+				wwCopy(A, a.v, 2 * n);
+				PL("ppRedPentanomial"); jInt("n", n); LW("a", A, 2 * n); jInt("m", m); jInt("k", k3); jInt("l", p.l); jInt("l1", p.l1);
+				CALL(ppRedPentanomial(A, &p)); LW("c", A, n);
+				MKCLS("m=%u,k=%u,a=%s", (unsigned)m, (unsigned)k3, a.nm); LE_(CLS, "none");
+			}
+		}
+	}
+	for (i = 0; i < NSH; ++i)
+	{
+		size_t n = W_OF_B(128);
+		mkshape(&a, 2 * n, (int)i);
+		wwCopy(A, a.v, 2 * n);
+		PL("ppRedBelt"); jInt("n", n); LW("a", A, 2 * n); CALL(ppRedBelt(A)); LW("c", A, n); MKCLS("a=%s", a.nm); LE_(CLS, "none");
+	}
+	/* irreducibility: table polynomials (irreducible), their neighbours and products (reducible), small complete range */
+	for (t = 0; t < COUNT_OF(IRR); ++t)
+	{
+		size_t m = IRR[t][0], n = W_OF_B(m + 1); bool_t r; int var;
+		if (!THOROUGH && m > 200) continue;
+		for (var = 0; var < 4; ++var)
+		{
+			memset(A, 0, sizeof(A));
+			wwSetBit(A, m, 1); wwSetBit(A, IRR[t][1], 1); A[0] |= 1;
+			if (IRR[t][2]) wwSetBit(A, IRR[t][2], 1), wwSetBit(A, IRR[t][3], 1);
+			if (var == 1) wwFlipBit(A, m / 2 + 1);                    /* even weight: divisible by x + 1 */
+			else if (var == 2) A[0] ^= 1;                               /* no constant term: divisible by x */
+			else if (var == 3) { if (2 * m + 1 > 21 * B_PER_W) continue; ppSqr(B_, A, n, STACK); wwCopy(A, B_, 2 * n); n = W_OF_B(2 * m + 1); }   /* a square */
+			PL("ppIsIrred"); jInt("n", n); LW("a", A, n); CALL(r = ppIsIrred(A, n, STACK)); jInt("ret", r);
+			MKCLS("deg=%u,%s", (unsigned)(var == 3 ? 2 * m : m), var == 0 ? "irreducible" : var == 1 ? "even-weight" : var == 2 ? "no-constant-term" : "square"); LE_(CLS, "none");
+		}
+	}
+	for (k = 2; k < (THOROUGH ? 1024 : 256); ++k)
+	{
+		word w = (word)k; bool_t r;
+		PL("ppIsIrred"); jInt("n", 1); LW("a", &w, 1); CALL(r = ppIsIrred(&w, 1, STACK)); jInt("ret", r); LE_("small-complete", "none");
+	}
+	/* minimal polynomial of a linear recurrent sequence of 2l bits generated by a polynomial of degree <= l */
+	{
+		static const size_t LS[] = { 1, 2, 3, 7, 8, 15, 16, 17, 31, 32, 33, 63, 64, 65, 100, 128 };
+		for (t = 0; t < COUNT_OF(LS); ++t)
+		{
+			size_t l = LS[t], d, var;
+			for (var = 0; var < 5; ++var)
+			{
+				word ch[NW], st[NW]; size_t pos, nb = W_OF_B(2 * l), no = W_OF_B(l + 1);
+				d = var == 0 ? 0 : var == 1 ? 1 : var == 2 ? l : var == 3 ? (l + 1) / 2 : l - (l > 1);
+				/* characteristic polynomial of degree d (seeded), initial state (seeded, non-zero for d > 0) */
+				memset(ch, 0, sizeof(ch)); memset(st, 0, sizeof(st));
+				vxRandBuf(ch, W_OF_B(d + 1) * O_PER_W); wwTrimHi(ch, W_OF_B(d + 1), d); wwSetBit(ch, d, 1);
+				if (var == 1) ch[0] = 3;                                /* x + 1: the all-ones sequence */
+				/* sequence s_0 .. s_{2l-1}; s_j is stored in bit 2l-1-j */
+				memset(A, 0, sizeof(A));
+				for (pos = 0; pos < 2 * l; ++pos)
+				{
+					bool_t bit;
+					if (pos < d) bit = var == 1 ? 1 : (bool_t)(vxRand64() & 1);
+					else { size_t i2; bit = 0; for (i2 = 0; i2 < d; ++i2) if (wwTestBit(ch, i2)) bit ^= wwTestBit(A, 2 * l - 1 - (pos - d + i2)); }
+					wwSetBit(A, 2 * l - 1 - pos, bit);
+				}
+				set_fill(C, no, 0x5A);
+				PL("ppMinPoly"); jInt("l", l); LW("a", A, nb); CALL(ppMinPoly(C, A, l, STACK)); LW("c", C, no);
+				MKCLS("l=%u,gen-degree=%s", (unsigned)l, var == 0 ? "0" : var == 1 ? "1(ones)" : var == 2 ? "l" : var == 3 ? "l/2" : "l-1"); LE_(CLS, "none");
+			}
+		}
+	}
+}
+
+/* ------------------------------------------------------------------ word / u16 / u32 / u64 helpers */
+static void w1_begin(const char* famw, const char* fn, const char* ed, const void* w, size_t bits)
+{
+	LB("word", "word1", ed); jStr("famw", famw); jStr("fn", fn); jInt("bits", (long long)bits); jLimbs16("w", w, bits / 8);
+}
+#define W1_INT(T, PFX, BITS, FN, ED, CALLEE) do { T x_ = (T)v; long long r_ = 0; w1_begin(PFX, FN, ED, &x_, BITS); CALL(r_ = (long long)CALLEE(x_)); jInt("ret", r_); LE_(cls, "none"); } while (0)
+#define W1_W(T, PFX, BITS, FN, CALLEE) do { T x_ = (T)v, r_ = 0; w1_begin(PFX, FN, "def", &x_, BITS); CALL(r_ = CALLEE(x_)); jLimbs16("ret", &r_, BITS / 8); LE_(cls, "none"); } while (0)
+#define WROT(T, PFX, BITS, FN, MAC) do { T x_ = (T)v, r_; LB("word", "wordRot", "def"); jStr("famw", PFX); jStr("fn", FN); jInt("bits", BITS); jLimbs16("w", &x_, BITS / 8); jInt("d", (long long)d); \
+	r_ = MAC(x_, d); jLimbs16("ret", &r_, BITS / 8); LE_(cls, "none"); } while (0)
+static void word_value(u64 v, const char* cls)
+{
+	size_t d;
+	W1_W(u32, "u32", 32, "Rev", u32Rev); W1_W(u32, "u32", 32, "Bitrev", u32Bitrev); W1_W(u32, "u32", 32, "Shuffle", u32Shuffle); W1_W(u32, "u32", 32, "Deshuffle", u32Deshuffle);
+	W1_INT(u32, "u32", 32, "Weight", "def", u32Weight); W1_INT(u32, "u32", 32, "Parity", "def", u32Parity);
+	W1_INT(u32, "u32", 32, "CTZ", "safe", SAFE(u32CTZ)); W1_INT(u32, "u32", 32, "CTZ", "fast", FAST(u32CTZ));
+	W1_INT(u32, "u32", 32, "CLZ", "safe", SAFE(u32CLZ)); W1_INT(u32, "u32", 32, "CLZ", "fast", FAST(u32CLZ));
+	if (v & 1) W1_W(u32, "u32", 32, "NegInv", u32NegInv);
+	W1_W(u64, "u64", 64, "Rev", u64Rev); W1_W(u64, "u64", 64, "Bitrev", u64Bitrev); W1_W(u64, "u64", 64, "Shuffle", u64Shuffle); W1_W(u64, "u64", 64, "Deshuffle", u64Deshuffle);
+	W1_INT(u64, "u64", 64, "Weight", "def", u64Weight); W1_INT(u64, "u64", 64, "Parity", "def", u64Parity);
+	W1_INT(u64, "u64", 64, "CTZ", "safe", SAFE(u64CTZ)); W1_INT(u64, "u64", 64, "CTZ", "fast", FAST(u64CTZ));
+	W1_INT(u64, "u64", 64, "CLZ", "safe", SAFE(u64CLZ)); W1_INT(u64, "u64", 64, "CLZ", "fast", FAST(u64CLZ));
+	if (v & 1) W1_W(u64, "u64", 64, "NegInv", u64NegInv);
+	/* the machine word aliases (word.h) */
+	W1_W(word, "word", B_PER_W, "Rev", wordRev); W1_W(word, "word", B_PER_W, "Bitrev", wordBitrev);
+	W1_W(word, "word", B_PER_W, "Shuffle", wordShuffle); W1_W(word, "word", B_PER_W, "Deshuffle", wordDeshuffle);
+	W1_INT(word, "word", B_PER_W, "Weight", "def", wordWeight); W1_INT(word, "word", B_PER_W, "Parity", "def", wordParity);
+	W1_INT(word, "word", B_PER_W, "CTZ", "safe", SAFE(wordCTZ)); W1_INT(word, "word", B_PER_W, "CTZ", "fast", FAST(wordCTZ));
+	W1_INT(word, "word", B_PER_W, "CLZ", "safe", SAFE(wordCLZ)); W1_INT(word, "word", B_PER_W, "CLZ", "fast", FAST(wordCLZ));
+	if (v & 1) W1_W(word, "word", B_PER_W, "NegInv", wordNegInv);
+	for (d = 1; d < 64; d += (d < 2 || d == 15 || d == 16 || d == 31 || d == 32 || d >= 62) ? 1 : (d < 15 ? 13 : d < 31 ? 14 : 15))
+	{
+		if (d < 32) { WROT(u32, "u32", 32, "RotHi", u32RotHi); WROT(u32, "u32", 32, "RotLo", u32RotLo); }
+		WROT(u64, "u64", 64, "RotHi", u64RotHi); WROT(u64, "u64", 64, "RotLo", u64RotLo);
+		if (d < B_PER_W) { WROT(word, "word", B_PER_W, "RotHi", wordRotHi); WROT(word, "word", B_PER_W, "RotLo", wordRotLo); }
+	}
+}
+#define U16BLK(FN, ED, EXPR) do { for (base = 0; base < 65536; base += 256) { long long out[256]; int i_; \
+	for (i_ = 0; i_ < 256; ++i_) { u16 x = (u16)(base + i_); out[i_] = (long long)(EXPR); } \
+	LB("word", "u16blk", ED); jStr("fn", FN); jInt("base", base); jInt("d", d); jIntArr("out", out, 256); LE_("complete", "none"); } } while (0)
+static void fam_word(void)
+{
+	int k, i; long base; long d = 0;
+	/* all 65536 16-bit words through every u16 helper */
+	U16BLK("Rev", "def", u16Rev(x)); U16BLK("Bitrev", "def", u16Bitrev(x)); U16BLK("Weight", "def", u16Weight(x)); U16BLK("Parity", "def", u16Parity(x));
+	U16BLK("CTZ", "safe", SAFE(u16CTZ)(x)); U16BLK("CTZ", "fast", FAST(u16CTZ)(x)); U16BLK("CLZ", "safe", SAFE(u16CLZ)(x)); U16BLK("CLZ", "fast", FAST(u16CLZ)(x));
+	U16BLK("Shuffle", "def", u16Shuffle(x)); U16BLK("Deshuffle", "def", u16Deshuffle(x));
+	U16BLK("NegInv", "def", (x & 1) ? u16NegInv(x) : 0);
+	for (d = 1; d < 16; d += (THOROUGH ? 1 : 7)) { U16BLK("RotHi", "def", u16RotHi(x, d)); U16BLK("RotLo", "def", u16RotLo(x, d)); }
+	/* wider words: boundary alphabets of both widths, walking one / walking zero, seeded */
+	{
+		static const u64 BV[] = { 0, 1, 2, 3, 0x7FFF, 0x8000, 0xFFFF, 0x10000, 0x7FFFFFFFull, 0x80000000ull, 0x80000001ull, 0xFFFFFFFEull, 0xFFFFFFFFull, 0x100000000ull,
+			0x7FFFFFFFFFFFFFFFull, 0x8000000000000000ull, 0x8000000000000001ull, 0xFFFFFFFFFFFFFFFEull, 0xFFFFFFFFFFFFFFFFull, 0xAAAAAAAAAAAAAAAAull, 0x5555555555555555ull,
+			0x00FF00FF00FF00FFull, 0x0123456789ABCDEFull, 0xFFFFFFFF00000000ull };
+		char cls[64];
+		for (k = 0; k < (int)COUNT_OF(BV); ++k) { snprintf(cls, sizeof(cls), "boundary%d", k); word_value(BV[k], cls); }
+		for (k = 0; k < 64; ++k) { snprintf(cls, sizeof(cls), "walking-one%d", k); word_value((u64)1 << k, cls); snprintf(cls, sizeof(cls), "walking-zero%d", k); word_value(~((u64)1 << k), cls); }
+		for (k = 0; k < (THOROUGH ? 200 : 16); ++k) { word_value(vxRand64(), "seeded"); }
+	}
+	/* load / store / octet reversal of arrays */
+	for (k = 0; k <= 25; ++k)
+	{
+		octet src[32], dst[40]; u16 a16[20]; u32 a32[10]; u64 a64[5];
+		for (i = 0; i < 32; ++i) src[i] = (octet)(k % 3 == 0 ? 0x80 + i : k % 3 == 1 ? 0xFF : vxRand64());
+#define FROMTO(T, ARR, BITS, FROM, TO, REV2) do { size_t cnt = ((size_t)k + BITS / 8 - 1) / (BITS / 8); \
+		memset(ARR, 0x5A, sizeof(ARR)); LB("word", "wFrom", "def"); jInt("Wd", BITS); jOct("octs", src, (size_t)k); CALL(FROM(ARR, src, (size_t)k)); jLimbs16("out", ARR, cnt * (BITS / 8)); LE_("count", "none"); \
+		memset(dst, 0x5A, sizeof(dst)); LB("word", "wTo", "def"); jInt("Wd", BITS); jInt("count", k); jLimbs16("a", ARR, cnt * (BITS / 8)); CALL(TO(dst, (size_t)k, ARR)); jOct("out", dst, (size_t)k); LE_("count", "none"); \
+		LB("word", "wRev2", "def"); jInt("Wd", BITS); jLimbs16("a", ARR, cnt * (BITS / 8)); CALL(REV2(ARR, cnt)); jLimbs16("out", ARR, cnt * (BITS / 8)); LE_("count", "none"); } while (0)
+		FROMTO(u16, a16, 16, u16From, u16To, u16Rev2);
+		FROMTO(u32, a32, 32, u32From, u32To, u32Rev2);
+		FROMTO(u64, a64, 64, u64From, u64To, u64Rev2);
+	}
+}
 static void fam_qr(void) {}
 /*@ENDMORE@*/
 static int has(int argc, char** argv, const char* f)
